@@ -478,6 +478,58 @@ def rule_g_swapped_flag_records_the_exchange(ctx, fns):
     return n
 
 
+def rule_h_detector_exchange_compensated(ctx):
+    """`Coordinates are antisymmetric ...` / the TOF part: find_cartesian_coordinates_given_scanner_coordinates brings the detector pair
+    into the order of the look-up table.  In the branch that EXCHANGES the two detectors the direction along the line is reversed, so
+    what decides the final exchange of the two points must have been changed in that branch (and only there): a final test on the
+    unchanged timing position gives opposite TOF bins the same ordered pair of points for half of the detector pairs (seed C12-5)."""
+    RULE = "C12.h-detector-exchange-compensated"
+    u = ctx.ex.get(Request(B + "ProjDataInfoCylindricalNoArcCorr.cxx", fn=["stir::ProjDataInfoCylindricalNoArcCorr::find_cartesian_coordinates_given_scanner_coordinates"]))
+    if u is None:
+        return
+    fs = [f for f in u.functions if f.body is not None]
+    if not fs:
+        ctx.fail_broken("anchor find_cartesian_coordinates_given_scanner_coordinates not found")
+        return
+    f = fs[0]
+    pk = {"v%d" % p["d"]: p.get("n") or p.get("name") for p in f.params}
+    # the two detector-number parameters: int parameters that are copied into locals in BOTH branches of one if, crosswise
+    ex = None
+    for m in f.walk():
+        if m.k != "IfStmt" or len(m.c) < 3:
+            continue
+        def copies(branch):
+            out = {}
+            for a in branch.walk():
+                if a.k == "BinaryOperator" and a.op == "=" and a.c[0].strip().k == "DeclRefExpr" and key(a.c[1].strip()) in pk:
+                    out[key(a.c[0].strip())] = key(a.c[1].strip())
+            return out
+        c1, c2 = copies(m.c[1]), copies(m.c[2])
+        common = [l for l in c1 if l in c2 and c1[l] != c2[l]]
+        if len(common) >= 2:
+            ex = (m, c1, c2, common)
+            break
+    swaps = [c for c in f.calls() if (c.callee or "").split("::")[-1] == "swap" and all(key(a.strip()) in pk for a in c.call_args())]
+    if ex is None or not swaps:
+        ctx.unrec(f.qn, "C12.h: the branch that exchanges the detectors / the final exchange of the two points was not recognised")
+        return
+    m, c1, c2, common = ex
+    guards = [a for a in swaps[-1].ancestors() if a.k == "IfStmt"]
+    if not guards:
+        ctx.unrec(f.qn, "C12.h: the exchange of the two points is not conditional")
+        return
+    cond_locals = {x.get("d") for x in guards[0].c[0].walk() if x.k == "DeclRefExpr" and x.get("dk") == "local"}
+    from engine.tree import written_lvalues
+
+    def written_in(branch):
+        return {root_of_lvalue(e) for a in branch.walk() for e in written_lvalues(a)}
+
+    w1, w2 = written_in(m.c[1]), written_in(m.c[2])
+    one_sided = {d for d in cond_locals if ("v%d" % d in w1) != ("v%d" % d in w2)}
+    ok = bool(one_sided)
+    ctx.ob(RULE, f.qn, "final-point-order", ok, guards[0].where(), "the test that orders the two points reads a local changed in exactly one branch of the detector exchange (%s)" % m.where() if ok else "the two points are ordered by `%s`, which the branch that exchanges the detectors (%s) does not change: for the detector pairs stored the other way round in the table a negative TOF bin gets the point order of the positive one" % (key(guards[0].c[0], True), m.where()))
+
+
 def run(ctx):
     ctx.explanation = (
         "Decides structural clauses only: (a) in every get_bin(LOR) implementation (arc-corrected, non-arc-corrected cylindrical, generic, "
@@ -515,6 +567,8 @@ def run(ctx):
     if gu is not None:
         rule_g_swapped_flag_records_the_exchange(ctx, gu.functions)
         ctx.require_count("C12.g-swapped-flag-records-the-exchange", 6)
+    rule_h_detector_exchange_compensated(ctx)
+    ctx.require_count("C12.h-detector-exchange-compensated", 1)
     ctx.require_count("C12.f-generic-coordinates-from-one-line", 4)
     ctx.require_count("C12.d-mashed-view-centred", 1)
     ctx.require_count("C12.a-range-test-after-last-modification", 9)
